@@ -31,7 +31,7 @@ EXHAUSTIVE = {"quick": False, "thorough": False}
 def plan(tier, seed):
     if tier == "quick":
         return [{"histories": 150}]
-    return [{"histories": 5000, "salt": i} for i in range(16)] + [{"histories": 0, "repo_tests": True}]
+    return [{"histories": 3000, "salt": i} for i in range(16)] + [{"histories": 0, "repo_tests": True}]
 
 
 def reach(root):
